@@ -350,12 +350,47 @@ func runC14(r *Runner) string {
 	}
 	r.Do("bip39.dec", []string{"-"}, "dec/word count 0..30", true, "one empty word")
 
+	// a list word replaced by a prefix of itself, by itself with a letter appended, in upper case, with a space
+	// inside: only the 2048 words themselves are words
+	for i := 0; i < r.N(60, 600); i++ {
+		words := c14Mnemonic(r.bytesN(c14Sizes[i%5]))
+		pos := []int{0, len(words) / 2, len(words) - 1, r.rng.Intn(len(words))}[i%4]
+		w := words[pos]
+		var v string
+		switch i % 6 {
+		case 0:
+			if len(w) > 4 {
+				v = w[:4]
+			} else {
+				v = w[:len(w)-1]
+			}
+		case 1:
+			v = w[:len(w)-1]
+		case 2:
+			if len(w) > 3 {
+				v = w[:3]
+			} else {
+				v = w[:1]
+			}
+		case 3:
+			v = w + string(rune('a'+r.rng.Intn(26)))
+		case 4:
+			v = strings.ToUpper(w[:1]) + w[1:]
+		default:
+			v = w[1:]
+		}
+		r.c14Dec(c14With(words, pos, v), "dec/word replaced by a part of itself", fmt.Sprintf("%q for %q", v, w))
+	}
+
 	// --- seeds (PBKDF2 costs ~25 ms per case in the compiled model) -----------------------------------
 	passes := [][]byte{nil, []byte("TREZOR"), []byte("a"), []byte("correct horse battery staple"), []byte("pässwörd"),
 		[]byte("パスワード"), []byte("ÅÅÅ"), // three spellings of Å: no NFKD is applied, the seeds differ
 		[]byte("🔑🔑"), []byte(" "), []byte("mnemonic"), bytes.Repeat([]byte("long passphrase "), 20), bytes.Repeat([]byte{0xe2, 0x82, 0xac}, 120),
 		{0x00}, {0xff, 0xfe, 0x00, 0x80}, bytes.Repeat([]byte{'x'}, 119), bytes.Repeat([]byte{'x'}, 120), bytes.Repeat([]byte{'x'}, 121),
-		bytes.Repeat([]byte{'y'}, 1000)}
+		bytes.Repeat([]byte{'y'}, 1000),
+		// white space and line terminators at either end and inside: every byte of the passphrase is salt
+		[]byte("TREZOR\n"), []byte("TREZOR\r\n"), []byte("\n"), []byte("\r"), []byte(" TREZOR"), []byte("TREZOR "), []byte("\tTREZOR\t"),
+		[]byte("TRE\nZOR"), []byte("correct horse battery staple\r"), []byte("\n\n"), []byte("TREZOR\x00"), []byte("\x00TREZOR"), []byte("TREZOR\v\f")}
 	nSeed := 0
 	seed := func(words []string, pass []byte, tag string) {
 		r.Do("bip39.seed", []string{mnemonicStr(words), hx(pass)}, "seed/"+tag, true, fmt.Sprintf("%d words, passphrase of %d bytes", len(words), len(pass)))
